@@ -18,7 +18,7 @@ def colInRange (refLen segLen : Nat) (c : PCol) : Bool :=
 
 /-- the written columns are acceptable -/
 def colsOk (o : WOpts) (refLen segLen : Nat) (t : PTrace) : Bool :=
-  t.all (fun c => c.1.isSome || c.2.isSome) &&
+  t.all (fun c => c.1.isSome || c.2.isSome) && contigB t &&
   o.introns.all (fun p => decide (p.1 < p.2) && decide (0 ≤ p.1)) &&
   t.all (fun c => !inIntron o.introns c || c.2.isNone) &&
   (!o.dm || t.all (colInRange refLen segLen))
@@ -99,6 +99,10 @@ theorem columnOps_ok_iff (o : WOpts) (refSeq segSeq : List Nat) (t : PTrace) :
       obtain ⟨b, _, hb⟩ := hF.mem_left a ha
       exact (colOp_ok_iff a).1 ⟨b, hb⟩
     simp only [h1, Bool.true_and]
+    cases hct : contigB t with
+    | false => simp
+    | true =>
+    simp only [Bool.not_true, Bool.false_eq_true, if_false, Bool.true_and]
     -- introns well-formed
     have hI : (o.introns.any fun p => decide (p.1 ≥ p.2) || decide (p.1 < 0)) =
         !(o.introns.all fun p => decide (p.1 < p.2) && decide (0 ≤ p.1)) := by
